@@ -1114,7 +1114,9 @@ class Interp:
             vc.assume(z3.And(k >= 0, k < term(si.length())))
             if inst is not None:
                 inst(vc, k)
+            before = frame_snapshot(frame)
             lc.havoc(vc, frame, k, si)
+            check_loop_frame(node, frame, lc, before)
             for _n, f in lc.invariant(vc, frame, k, si):
                 vc.assume(f)
             if not vc.feasible():
@@ -1136,7 +1138,9 @@ class Interp:
                     vc.check(f"inv.keep#{lname}.{n}", f)
             raise PathEnd()
         else:
+            before = frame_snapshot(frame)
             lc.havoc(vc, frame, si.length(), si)
+            check_loop_frame(node, frame, lc, before)
             for _n, f in lc.invariant(vc, frame, si.length(), si):
                 vc.assume(f)
             if not vc.feasible():
@@ -1175,7 +1179,9 @@ class Interp:
         branch = vc.choose(2, "loop")
         k = vc.fresh_int("k")
         vc.assume(k >= 0)
+        before = frame_snapshot(frame)
         lc.havoc(vc, frame, k, None)
+        check_loop_frame(node, frame, lc, before)
         for _n, f in lc.invariant(vc, frame, k, None):
             vc.assume(f)
         if not vc.feasible():
@@ -1206,6 +1212,119 @@ class Interp:
                 raise PathEnd()
             vc.cover(f"{lname}.exit")
             self.exec_block(node.orelse, frame)
+
+
+_MUTATORS = {"append", "extend", "add", "update", "clear", "pop", "remove", "insert", "setdefault",
+             "sort", "reverse", "discard", "popitem", "appendleft"}
+
+
+def loop_written_names(node):
+    """names that the loop body (re)binds or mutates in place (syntactic);
+    comprehension variables and the bodies of nested function definitions
+    are not part of the enclosing scope"""
+    names = set()
+
+    def base(t):
+        while isinstance(t, (ast.Subscript, ast.Attribute, ast.Starred)):
+            t = t.value
+        return t.id if isinstance(t, ast.Name) else None
+
+    def targets(t):
+        if isinstance(t, (ast.Tuple, ast.List)):
+            for e in t.elts:
+                targets(e)
+        else:
+            b = base(t)
+            if b is not None:
+                names.add(b)
+
+    class V(ast.NodeVisitor):
+        def visit_Assign(self, n):
+            for t in n.targets:
+                targets(t)
+            self.generic_visit(n)
+
+        def visit_AugAssign(self, n):
+            targets(n.target)
+            self.generic_visit(n)
+
+        def visit_AnnAssign(self, n):
+            if n.value is not None:
+                targets(n.target)
+            self.generic_visit(n)
+
+        def visit_NamedExpr(self, n):
+            targets(n.target)
+            self.generic_visit(n)
+
+        def visit_For(self, n):
+            targets(n.target)
+            self.generic_visit(n)
+
+        def visit_Delete(self, n):
+            for t in n.targets:
+                targets(t)
+
+        def visit_With(self, n):
+            for it in n.items:
+                if it.optional_vars is not None:
+                    targets(it.optional_vars)
+            self.generic_visit(n)
+
+        def visit_Call(self, n):
+            if isinstance(n.func, ast.Attribute) and n.func.attr in _MUTATORS:
+                b = base(n.func.value)
+                if b is not None and isinstance(n.func.value, (ast.Name, ast.Subscript)):
+                    names.add(b)
+            self.generic_visit(n)
+
+        def visit_FunctionDef(self, n):
+            names.add(n.name)
+
+        def visit_Lambda(self, n):
+            pass
+
+        def visit_ListComp(self, n):
+            for g in n.generators:
+                self.visit(g.iter)
+
+        visit_SetComp = visit_DictComp = visit_GeneratorExp = visit_ListComp
+
+    v = V()
+    for st in list(node.body) + list(node.orelse):
+        v.visit(st)
+    own = set()
+    if isinstance(node, ast.For):
+        saved, names = names, set()
+        targets(node.target)
+        own, names = names, saved
+    return names, own
+
+
+def frame_snapshot(frame):
+    snap = {}
+    f = frame
+    while f is not None:
+        for k, v in f.locals.items():
+            snap.setdefault(k, id(v))
+        f = f.parent
+    return snap
+
+
+def check_loop_frame(node, frame, lc, before):
+    """every name the loop body writes has to be in the frame (modifies
+    clause) of the loop contract: replaced / removed by its `havoc`, or listed
+    in `modifies` / `scratch`.  Anything else would silently keep its
+    pre-loop value in the arbitrary iteration."""
+    after = frame_snapshot(frame)
+    declared = {k for k in set(before) | set(after) if before.get(k) != after.get(k)}
+    declared |= set(getattr(lc, "modifies", ())) | set(getattr(lc, "scratch", ()))
+    written, own = loop_written_names(node)
+    missing = sorted(n for n in written - own - declared
+                     if n in before or n in after)
+    if missing:
+        raise Unsupported("the loop writes " + ", ".join(missing) + ": outside the frame "
+                          "(modifies clause) of its loop contract")
 
 
 def frame_loop_ordinal(frame, node):
